@@ -61,7 +61,10 @@ def body(chk: core.Check):
         msrc = open(f"{core.REPO}/gapic/schema/metadata.py").read()
         i = msrc.index("def __str__")
         chk.encoded("gapic/schema/metadata.py: Address.__str__/module_alias/python_import", msrc[i:i + 6000])
-        res = ch.run(H, ["fname", "alias"], timeout=300, env={}, jobs=chk.jobs)
+        psrc = open(f"{core.REPO}/gapic/schema/api.py").read()
+        i = psrc.index("def names(self)")
+        chk.encoded("gapic/schema/api.py: Proto.names (module-name collisions of one file)", psrc[i:i + 1500])
+        res = ch.run(H, ["fname", "alias", "proto_names"], timeout=300, env={}, jobs=chk.jobs)
         ch.settle(chk, H, res, "names")
         for r in res:
             chk.sample({"harness": "h12_names." + r["func"], "status": r["status"], "seconds": r["seconds"]})
